@@ -551,15 +551,20 @@ func modelSprintf(ex *Exec, s *State, cc *ssa.CallCommon, a []Value) (Value, *Fo
 		if hi.Cmp(limit) < 0 {
 			cond = c.BAnd(cond, c.Cmp(OUlt, symT, c.BVBig(w, hi)))
 		}
-		// digits most significant first
+		// digits most significant first: fresh digit variables tied to the value by the
+		// (existence and uniqueness of the) decimal representation  x = sum d_j * 10^j, d_j <= 9
 		digits := make([]*Term, k)
-		div := new(bigIntT).Set(pow)
+		ex.sprintfCount++
+		sum := c.BV(64, 0)
 		for d := 0; d < k; d++ {
-			q := c.BVOp(OUDiv, symT, c.BVBig(w, div))
-			dig := c.BVOp(OURem, q, c.BV(w, 10))
-			digits[d] = c.Add(c.Extract(dig, 7, 0), c.BV(8, '0'))
-			div.Div(div, bigTen)
+			dv := c.Var(fmt.Sprintf("dec!%d!%d!%d", ex.sprintfCount, k, d), SBV(8))
+			cond = c.BAnd(cond, c.Cmp(OUle, dv, c.BV(8, 9)))
+			digits[d] = c.Add(dv, c.BV(8, '0'))
+			sum = c.Add(c.Mul(sum, c.BV(64, 10)), c.ZExt(dv, 64))
+			// redundant lemma (follows from the representation): every decimal prefix is <= the value
+			cond = c.BAnd(cond, c.Cmp(OUle, sum, c.ZExt(symT, 64)))
 		}
+		cond = c.BAnd(cond, c.Eq(c.ZExt(symT, 64), sum))
 		var out []*Term
 		for _, p := range pieces {
 			if p.sym != nil {
